@@ -1,11 +1,963 @@
+(* Proofs about Model/Vector.v (class Vector of data/containers.py) - part 1:
+   lists, the extended reals, well-formed states, clone / dictionary round trip,
+   preservation, frame, rejection, the bound-hit flag, the pinned code, reachability. *)
+
 From Coq Require Import ZArith Bool List String Reals Lra Lia.
 From Hy Require Import Base.Num Gen.Consts Gen.ConstsC12 Model.Vector.
 Import ListNotations.
 
-Lemma stub_rejected_unchanged : forall {T} (V : VOps T) s name x,
-  snd (set_attr V s name x) = Rejected -> fst (set_attr V s name x) = s.
+(* ---------- lists ---------- *)
+Section Lists.
+Context {A B C D : Type}.
+
+Lemma map3_length (f : A -> B -> C -> D) a b c n :
+  List.length a = n -> List.length b = n -> List.length c = n ->
+  List.length (map3 f a b c) = n.
 Proof.
-  intros T V s name x. unfold set_attr.
-  destruct (index_of name (v_names s)); simpl; [|discriminate].
-  destruct (vo_isnan V x && negb (v_an s)); simpl; [reflexivity|discriminate].
+  intros Ha Hb Hc. unfold map3. rewrite map_length, !combine_length. lia.
+Qed.
+
+Lemma map3_nth (f : A -> B -> C -> D) a b c n i da db dc dd :
+  List.length a = n -> List.length b = n -> List.length c = n -> (i < n)%nat ->
+  nth i (map3 f a b c) dd = f (nth i a da) (nth i b db) (nth i c dc).
+Proof.
+  revert b c n i. induction a as [|x a IH]; intros b c n i Ha Hb Hc Hi; simpl in *.
+  - lia.
+  - destruct b as [|y b]; [simpl in *; lia|]. destruct c as [|z c]; [simpl in *; lia|].
+    destruct i; simpl; [reflexivity|].
+    unfold map3 in IH. simpl in *. eapply (IH b c (pred n)); lia.
+Qed.
+
+Lemma existsb3_false_iff (p : A -> B -> C -> bool) a b c n da db dc :
+  List.length a = n -> List.length b = n -> List.length c = n ->
+  (existsb3 p a b c = false <->
+   forall i, (i < n)%nat -> p (nth i a da) (nth i b db) (nth i c dc) = false).
+Proof.
+  revert b c n. induction a as [|x a IH]; intros b c n Ha Hb Hc; simpl in *.
+  - split; [intros _ i Hi; lia | reflexivity].
+  - destruct b as [|y b]; [simpl in *; lia|]. destruct c as [|z c]; [simpl in *; lia|].
+    unfold existsb3 in *. simpl in *. rewrite orb_false_iff.
+    rewrite (IH b c (pred n)) by lia. split.
+    + intros [H0 H] i Hi. destruct i; [exact H0|]. apply H. lia.
+    + intros H. split; [apply (H O); lia|]. intros i Hi. apply (H (S i)). lia.
+Qed.
+End Lists.
+
+Lemma upd_length {A} i (x : A) l : List.length (upd i x l) = List.length l.
+Proof. revert i. induction l; intros [|i]; simpl; auto. Qed.
+
+Lemma upd_nth {A} i j (x d : A) l : (i < List.length l)%nat ->
+  nth j (upd i x l) d = if Nat.eqb j i then x else nth j l d.
+Proof.
+  revert i j. induction l as [|a l IH]; intros i j Hi; simpl in *; [lia|].
+  destruct i, j; simpl; auto. apply IH. lia.
+Qed.
+
+Lemma index_of_some name names i : index_of name names = Some i ->
+  (i < List.length names)%nat /\ nth i names EmptyString = name.
+Proof.
+  revert i. induction names as [|n rest IH]; intros i H; simpl in *; [discriminate|].
+  destruct (String.eqb name n) eqn:E.
+  - inversion H; subst. apply String.eqb_eq in E. split; [lia|auto].
+  - destruct (index_of name rest) as [k|]; [|discriminate]. inversion H; subst.
+    destruct (IH k eq_refl). split; [lia|auto].
+Qed.
+
+Lemma index_of_none name names : index_of name names = None <-> ~ In name names.
+Proof.
+  induction names as [|n rest IH]; simpl; [tauto|].
+  destruct (String.eqb name n) eqn:E.
+  - apply String.eqb_eq in E. split; [discriminate|]. intros H; exfalso; apply H; auto.
+  - apply String.eqb_neq in E. destruct (index_of name rest) as [k|] eqn:Ek.
+    + split; [discriminate|]. intros H. exfalso. apply H. right.
+      destruct (index_of_some _ _ _ Ek) as [Hk Hn]. rewrite <- Hn. apply nth_In; auto.
+    + split; [|reflexivity]. intros _ [H|H]; [congruence|]. apply IH in H; auto.
+Qed.
+
+Lemma index_of_in name names : In name names -> exists i, index_of name names = Some i.
+Proof.
+  intros H. destruct (index_of name names) eqn:E; [eauto|].
+  apply index_of_none in E. contradiction.
+Qed.
+
+Lemma existsb_eqb_in n rest : existsb (String.eqb n) rest = true <-> In n rest.
+Proof.
+  rewrite existsb_exists. split.
+  - intros [x [Hx E]]. apply String.eqb_eq in E. subst; auto.
+  - intros H. exists n. split; auto. apply String.eqb_refl.
+Qed.
+
+Lemma nodupb_iff names : nodupb names = true <-> NoDup names.
+Proof.
+  induction names as [|n rest IH]; simpl.
+  - split; [constructor|reflexivity].
+  - rewrite andb_true_iff, negb_true_iff, IH. split.
+    + intros [H1 H2]. constructor; auto. intro Hin. apply existsb_eqb_in in Hin. congruence.
+    + intros H. inversion H; subst. split; auto.
+      destruct (existsb (String.eqb n) rest) eqn:E; auto. apply existsb_eqb_in in E. contradiction.
+Qed.
+
+(* ---------- the extended reals ---------- *)
+Open Scope R_scope.
+
+Definition xle (a b : xr) : Prop :=
+  match a, b with
+  | XNan, _ | _, XNan => False
+  | XNinf, _ => True
+  | _, XPinf => True
+  | XFin x, XFin y => x <= y
+  | _, _ => False
+  end.
+
+(* x is an admissible stored value for bounds [lo, hi]: NaN only when accept_nan *)
+Definition in_bounds (an : bool) (x lo hi : xr) : Prop :=
+  (x = XNan /\ an = true) \/ (xle lo x /\ xle x hi).
+
+(* the property's quantifier: a finite value is exactly on a finite bound or at
+   least 1e-6 away from it (nothing is asked of infinite or NaN values/bounds) *)
+Definition away (x b : xr) : Prop :=
+  match x, b with
+  | XFin x, XFin b => x = b \/ 1 / 1000000 <= Rabs (x - b)
+  | _, _ => True
+  end.
+
+Ltac rdec := repeat match goal with
+  | |- context [Rlt_dec ?a ?b] => destruct (Rlt_dec a b)
+  | H : context [Rlt_dec ?a ?b] |- _ => destruct (Rlt_dec a b)
+  end.
+Ltac xr_atom := solve [lra | tauto | reflexivity | f_equal; lra | discriminate | congruence].
+Ltac xr_solve :=
+  repeat (progress (simpl in *; unfold Rltb, EPS_containers_R in *; rdec));
+  repeat match goal with H : XFin _ = XFin _ |- _ => injection H as H end;
+  try tauto; try discriminate; try lra; try (f_equal; lra); try congruence;
+  try (repeat split; xr_atom);
+  try solve [left; repeat split; xr_atom
+            | right; left; repeat split; xr_atom
+            | right; right; repeat split; xr_atom].
+Ltac xr_unfold := unfold clip_np, clip_py, hit_eps, hit_exact, in_bounds, xle, away in *.
+Ltac xr_cases :=
+  intros; xr_unfold; repeat match goal with x : xr |- _ => destruct x end; xr_solve.
+
+Lemma xle_notnan a b : xle a b -> a <> XNan /\ b <> XNan.
+Proof. destruct a, b; simpl; intros H; split; try tauto; discriminate. Qed.
+
+Lemma xle_isnan_l a b : xle a b -> xisnan a = false.
+Proof. destruct a, b; simpl; tauto. Qed.
+Lemma xle_isnan_r a b : xle a b -> xisnan b = false.
+Proof. destruct a, b; simpl; tauto. Qed.
+
+Lemma xle_refl a : a <> XNan -> xle a a.
+Proof. destruct a; simpl; try tauto; intros; lra. Qed.
+
+Lemma xle_trans a b c : xle a b -> xle b c -> xle a c.
+Proof. xr_cases. Qed.
+
+Lemma clip_np_nan lo hi : clip_np VXR XNan lo hi = XNan.
+Proof. reflexivity. Qed.
+
+Lemma clip_np_bounds x lo hi : xle lo hi -> x <> XNan ->
+  xle lo (clip_np VXR x lo hi) /\ xle (clip_np VXR x lo hi) hi.
+Proof. xr_cases. Qed.
+
+Lemma clip_np_id x lo hi : xle lo x -> xle x hi -> clip_np VXR x lo hi = x.
+Proof. xr_cases. Qed.
+
+Lemma clip_np_free x : clip_np VXR x XNinf XPinf = x.
+Proof. destruct x; reflexivity. Qed.
+
+Lemma clip_np_in_bounds an x lo hi : xle lo hi -> (x = XNan -> an = true) ->
+  in_bounds an (clip_np VXR x lo hi) lo hi.
+Proof.
+  intros H Hn. destruct x; try (right; apply clip_np_bounds; auto; discriminate).
+  left. split; auto.
+Qed.
+
+Lemma clip_py_eq_np x lo hi : xle lo hi -> clip_py VXR x lo hi = clip_np VXR x lo hi.
+Proof. xr_cases. Qed.
+
+(* what a clip stores: the value itself inside the bounds, else the bound it passed *)
+Lemma clip_np_spec x lo hi : xle lo hi -> x <> XNan ->
+  (xle lo x /\ xle x hi /\ clip_np VXR x lo hi = x) \/
+  (xltb x lo = true /\ clip_np VXR x lo hi = lo) \/
+  (xltb hi x = true /\ clip_np VXR x lo hi = hi).
+Proof. xr_cases. Qed.
+
+(* attribute path: the exact test detects a clip, for EVERY value *)
+Lemma hit_exact_false_iff x lo hi : xle lo hi ->
+  (hit_exact VXR x lo hi = false <-> clip_py VXR x lo hi = x).
+Proof. xr_cases; split; intros; xr_solve. Qed.
+
+(* whole-vector path: the EPS test detects a clip for values in the quantifier *)
+Lemma hit_eps_false_iff x lo hi : xle lo hi -> away x lo -> away x hi ->
+  (hit_eps VXR x lo hi = false <-> clip_np VXR x lo hi = x).
+Proof.
+  xr_cases; split; intros; xr_solve;
+    try (match goal with H : _ \/ _ |- _ => destruct H end; xr_solve);
+    try (unfold Rabs in *; repeat match goal with
+         | H : context [Rcase_abs ?a] |- _ => destruct (Rcase_abs a) end; xr_solve).
+Qed.
+
+Lemma hit_tests_agree x lo hi : xle lo hi -> away x lo -> away x hi ->
+  hit_eps VXR x lo hi = hit_exact VXR x lo hi.
+Proof.
+  intros H Hl Hh.
+  destruct (hit_eps VXR x lo hi) eqn:E1, (hit_exact VXR x lo hi) eqn:E2; auto.
+  - apply hit_exact_false_iff in E2; auto. rewrite clip_py_eq_np in E2; auto.
+    apply hit_eps_false_iff in E2; auto. congruence.
+  - apply hit_eps_false_iff in E1; auto. rewrite <- clip_py_eq_np in E1; auto.
+    apply hit_exact_false_iff in E1; auto. congruence.
+Qed.
+
+Lemma hit_eps_in_bounds an x lo hi : in_bounds an x lo hi -> hit_eps VXR x lo hi = false.
+Proof. intros [[H _]|[H1 H2]]; [subst; destruct lo, hi; reflexivity|]. revert H1 H2. xr_cases. Qed.
+
+Lemma in_bounds_clip_id an x lo hi : in_bounds an x lo hi -> clip_np VXR x lo hi = x.
+Proof. intros [[H _]|[H1 H2]]; [subst; reflexivity | apply clip_np_id; auto]. Qed.
+
+(* ---------- well-formed states ---------- *)
+Notation vst := (vstate (T := xr)).
+Notation nx l i := (nth i l (XFin 0)).
+
+Record wf (s : vst) : Prop := mkWf {
+  wf_lmins : List.length (v_mins s) = v_nval s;
+  wf_lmaxs : List.length (v_maxs s) = v_nval s;
+  wf_ldefs : List.length (v_defaults s) = v_nval s;
+  wf_lvals : List.length (v_values s) = v_nval s;
+  wf_nodup : NoDup (v_names s);
+  wf_bnd : forall i, (i < v_nval s)%nat -> xle (nx (v_mins s) i) (nx (v_maxs s) i);
+  wf_defs : forall i, (i < v_nval s)%nat ->
+            in_bounds (v_an s) (nx (v_defaults s) i) (nx (v_mins s) i) (nx (v_maxs s) i);
+  wf_vals : forall i, (i < v_nval s)%nat ->
+            in_bounds (v_an s) (nx (v_values s) i) (nx (v_mins s) i) (nx (v_maxs s) i);
+  wf_flags : v_chb s = true -> v_cb s = true;
+  wf_nohit : v_chb s = false -> v_hit s = false
+}.
+
+Lemma nth_repeat_lt {A} (x d : A) n i : (i < n)%nat -> nth i (repeat x n) d = x.
+Proof. revert i. induction n; intros [|i] H; simpl; auto; try lia. apply IHn. lia. Qed.
+
+Lemma existsb_false_nth {A} (f : A -> bool) l d :
+  (forall i, (i < List.length l)%nat -> f (nth i l d) = false) -> existsb f l = false.
+Proof.
+  induction l as [|a l IH]; intros H; simpl in *; auto.
+  rewrite (H O) by lia. simpl. apply IH. intros i Hi. apply (H (S i)). lia.
+Qed.
+
+Lemma in_bounds_nan_guard an x lo hi : in_bounds an x lo hi -> xisnan x && negb an = false.
+Proof.
+  intros [[-> ->]|[H _]]; [reflexivity|]. apply xle_isnan_r in H. rewrite H. reflexivity.
+Qed.
+
+Lemma nan_guard an val mins maxs n :
+  List.length val = n ->
+  (forall i, (i < n)%nat -> in_bounds an (nx val i) (nx mins i) (nx maxs i)) ->
+  existsb xisnan val && negb an = false.
+Proof.
+  intros L H. destruct an; [apply andb_false_r|]. rewrite andb_true_r.
+  apply existsb_false_nth with (d := XFin 0). intros i Hi.
+  specialize (H i ltac:(lia)). apply in_bounds_nan_guard in H. rewrite andb_true_r in H. exact H.
+Qed.
+
+(* values already inside the bounds pass the validation routine unchanged, no hit *)
+Lemma checkvalues_ok mins maxs an n val ck :
+  List.length mins = n -> List.length maxs = n -> List.length val = n ->
+  (forall i, (i < n)%nat -> in_bounds an (nx val i) (nx mins i) (nx maxs i)) ->
+  checkvalues VXR mins maxs an n val ck = Some (val, false).
+Proof.
+  intros Lm LM Lv H. unfold checkvalues. rewrite Lv, Nat.eqb_refl. simpl.
+  change (vo_isnan VXR) with xisnan. rewrite (nan_guard an val mins maxs n Lv H).
+  f_equal. f_equal.
+  - apply nth_ext with (d := XFin 0) (d' := XFin 0).
+    + rewrite (map3_length _ _ _ _ n); auto.
+    + intros i Hi. rewrite (map3_length _ _ _ _ n) in Hi; auto.
+      rewrite (map3_nth _ _ _ _ n i (XFin 0) (XFin 0) (XFin 0)); auto.
+      eapply in_bounds_clip_id; eauto.
+  - destruct ck; auto.
+    apply (existsb3_false_iff _ _ _ _ n (XFin 0) (XFin 0) (XFin 0)); auto.
+    intros i Hi. eapply hit_eps_in_bounds; eauto.
+Qed.
+
+(* what the validation routine returns when it accepts (any number instance) *)
+Lemma checkvalues_some {T} (V : VOps T) mins maxs an n val ck vals hit :
+  checkvalues V mins maxs an n val ck = Some (vals, hit) ->
+  List.length val = n /\ existsb (vo_isnan V) val && negb an = false /\
+  vals = map3 (clip_np V) val mins maxs /\
+  hit = (if ck then existsb3 (hit_eps V) val mins maxs else false).
+Proof.
+  unfold checkvalues. destruct (Nat.eqb (List.length val) n) eqn:E; simpl; [|discriminate].
+  destruct (existsb (vo_isnan V) val && negb an) eqn:E2; [discriminate|].
+  intros H. inversion H; subst. apply Nat.eqb_eq in E. auto.
+Qed.
+
+Lemma checkvalues_none {T} (V : VOps T) mins maxs an n val ck :
+  checkvalues V mins maxs an n val ck = None <->
+  (List.length val <> n \/ (existsb (vo_isnan V) val = true /\ an = false)).
+Proof.
+  unfold checkvalues. destruct (Nat.eqb (List.length val) n) eqn:E; simpl.
+  - apply Nat.eqb_eq in E. destruct (existsb (vo_isnan V) val) eqn:E2, an; simpl;
+      split; intros; auto; try discriminate; try tauto.
+    + destruct H as [H|[_ H]]; [contradiction|discriminate].
+    + destruct H as [H|[H _]]; [contradiction|discriminate].
+    + destruct H as [H|[H _]]; [contradiction|discriminate].
+  - apply Nat.eqb_neq in E. split; auto.
+Qed.
+
+(* rebuilding a vector from well-formed data reproduces the data *)
+Lemma vnew_rebuild names mins maxs defs cb chb an :
+  let n := List.length names in
+  List.length mins = n -> List.length maxs = n -> List.length defs = n ->
+  NoDup names ->
+  (forall i, (i < n)%nat -> xle (nx mins i) (nx maxs i)) ->
+  (forall i, (i < n)%nat -> in_bounds an (nx defs i) (nx mins i) (nx maxs i)) ->
+  (chb = true -> cb = true) ->
+  vnew VXR names (Some defs) (Some mins) (Some maxs) cb chb an =
+  Some (mkV names mins maxs defs defs false cb chb an).
+Proof.
+  intros n Lm LM Ld ND Hb Hd Hf. unfold vnew. fold n.
+  assert (chb && negb cb = false) as ->.
+  { destruct chb; auto. rewrite Hf; auto. }
+  apply nodupb_iff in ND. rewrite ND. simpl.
+  change (vo_ninf VXR) with XNinf. change (vo_pinf VXR) with XPinf.
+  rewrite (checkvalues_ok (repeat XNinf n) (repeat XPinf n) an n mins false);
+    auto using repeat_length.
+  2:{ intros i Hi. rewrite !nth_repeat_lt by auto. right.
+      destruct (xle_notnan _ _ (Hb i Hi)) as [H1 _]. destruct (nx mins i); simpl; tauto. }
+  rewrite (checkvalues_ok mins (repeat XPinf n) an n maxs true); auto using repeat_length.
+  2:{ intros i Hi. rewrite !nth_repeat_lt by auto. right. split; auto.
+      destruct (xle_notnan _ _ (Hb i Hi)) as [_ H2]. destruct (nx maxs i); simpl; tauto. }
+  rewrite (checkvalues_ok mins maxs an n defs true); auto.
+Qed.
+
+Lemma set_all_rebuild names mins maxs defs vals0 hit0 vals cb chb an :
+  let n := List.length names in
+  List.length mins = n -> List.length maxs = n -> List.length vals = n ->
+  (forall i, (i < n)%nat -> in_bounds an (nx vals i) (nx mins i) (nx maxs i)) ->
+  set_all VXR (mkV names mins maxs defs vals0 hit0 cb chb an) vals =
+  (mkV names mins maxs defs vals false cb chb an, Accepted).
+Proof.
+  intros n Lm LM Lv Hv. unfold set_all, v_nval. simpl. fold n.
+  rewrite (checkvalues_ok mins maxs an n vals chb); auto.
+Qed.
+
+(* ---------- rows of the dictionary ---------- *)
+Section Rows.
+Context {T : Type}.
+Lemma rows_facts (names : list string) (vals mins maxs defs : list T) n :
+  List.length names = n -> List.length vals = n -> List.length mins = n ->
+  List.length maxs = n -> List.length defs = n ->
+  List.length (rows names vals mins maxs defs) = n /\
+  map r_name (rows names vals mins maxs defs) = names /\
+  map r_value (rows names vals mins maxs defs) = vals /\
+  map r_min (rows names vals mins maxs defs) = mins /\
+  map r_max (rows names vals mins maxs defs) = maxs /\
+  map r_default (rows names vals mins maxs defs) = defs.
+Proof.
+  revert vals mins maxs defs n.
+  induction names as [|a names IH]; intros vals mins maxs defs n H1 H2 H3 H4 H5;
+    destruct vals, mins, maxs, defs; simpl in *; try lia.
+  - subst; repeat split; reflexivity.
+  - destruct (IH vals mins maxs defs (pred n)) as (A & B & C & D & E & F); try lia.
+    rewrite A, B, C, D, E, F. repeat split; auto. lia.
+Qed.
+End Rows.
+
+Definition lengths_ok {T} (s : vstate (T := T)) : Prop :=
+  List.length (v_mins s) = v_nval s /\ List.length (v_maxs s) = v_nval s /\
+  List.length (v_defaults s) = v_nval s /\ List.length (v_values s) = v_nval s.
+
+(* the dictionary round trip IS a clone (any number instance, repaired code) *)
+Lemma from_dict_to_dict_clone {T} (V : VOps T) s : lengths_ok s ->
+  from_dict V (to_dict s) = clone V s.
+Proof.
+  intros (L1 & L2 & L3 & L4). unfold from_dict, to_dict, clone. simpl.
+  destruct (rows_facts (v_names s) (v_values s) (v_mins s) (v_maxs s) (v_defaults s) (v_nval s))
+    as (A & B & C & D & E & F); auto.
+  set (R := rows (v_names s) (v_values s) (v_mins s) (v_maxs s) (v_defaults s)) in *.
+  rewrite A, Nat.ltb_irrefl.
+  assert (firstn (v_nval s) R = R) as -> by (rewrite <- A; apply firstn_all).
+  rewrite B, C, D, E, F. reflexivity.
+Qed.
+
+Lemma wf_lengths s : wf s -> lengths_ok s.
+Proof. intros []; repeat split; auto. Qed.
+
+(* ---------- clone and dictionary round trip reproduce the state ---------- *)
+Theorem clone_id s : wf s -> clone VXR s = Some s.
+Proof.
+  intros W. destruct W. destruct s as [names mins maxs defs vals hit cb chb an].
+  unfold clone, v_nval in *. simpl in *.
+  rewrite vnew_rebuild; auto.
+  rewrite set_all_rebuild; auto.
+Qed.
+
+Theorem dict_id s : wf s -> from_dict VXR (to_dict s) = Some s.
+Proof. intros W. rewrite from_dict_to_dict_clone; auto using wf_lengths, clone_id. Qed.
+
+(* ---------- every operation preserves well-formedness ---------- *)
+Lemma set_attr_wf s name x : wf s -> wf (fst (set_attr VXR s name x)).
+Proof.
+  intros W. unfold set_attr. destruct (index_of name (v_names s)) as [i|] eqn:Ei; simpl; auto.
+  apply index_of_some in Ei. destruct Ei as [Hi _].
+  destruct s as [names mins maxs defs vals hit cb chb an]. simpl in *.
+  destruct (xisnan x && negb an) eqn:G; simpl; auto.
+  destruct W. unfold v_nval in *; simpl in *.
+  constructor; unfold v_nval; simpl; auto.
+  - rewrite upd_length; auto.
+  - intros j Hj. rewrite upd_nth by lia.
+    destruct (Nat.eqb j i) eqn:E; auto. apply Nat.eqb_eq in E; subst j.
+    rewrite clip_py_eq_np by auto. apply clip_np_in_bounds; auto.
+    intros ->. simpl in G. destruct an; auto; discriminate.
+  - intros C. destruct chb; [discriminate|]. auto.
+Qed.
+
+Lemma set_all_wf s val : wf s -> wf (fst (set_all VXR s val)).
+Proof.
+  intros W. unfold set_all.
+  destruct (checkvalues VXR (v_mins s) (v_maxs s) (v_an s) (v_nval s) val (v_chb s))
+    as [[vals hit]|] eqn:E; simpl; auto.
+  apply checkvalues_some in E. destruct E as (L & G & -> & ->).
+  destruct W. destruct s as [names mins maxs defs vals0 hit0 cb chb an].
+  unfold v_nval in *; simpl in *.
+  constructor; unfold v_nval; simpl; auto.
+  - apply map3_length; auto.
+  - intros i Hi.
+    rewrite (map3_nth _ _ _ _ (List.length names) i (XFin 0) (XFin 0) (XFin 0)); auto.
+    apply clip_np_in_bounds; auto. intros E.
+    destruct an; auto. rewrite andb_true_r in G.
+    assert (existsb xisnan val = true); [|simpl in *; congruence].
+    apply existsb_exists. exists (nx val i). split; [apply nth_In; lia|]. rewrite E. reflexivity.
+  - intros ->. reflexivity.
+Qed.
+
+Theorem step_wf s op : wf s -> wf (fst (step VXR s op)).
+Proof.
+  intros W. destruct op; simpl.
+  - apply set_attr_wf; auto.
+  - unfold set_key. destruct (index_of key (v_names s)); simpl; auto. apply set_attr_wf; auto.
+  - apply set_all_wf; auto.
+  - apply set_all_wf; auto.
+  - rewrite clone_id; auto.
+  - rewrite dict_id; auto.
+Qed.
+
+Theorem run_wf ops : forall s, wf s -> wf (run VXR s ops).
+Proof.
+  unfold run. induction ops as [|op ops IH]; intros s W; simpl; auto.
+  apply IH. apply step_wf; auto.
+Qed.
+
+(* ---------- the constructor establishes well-formedness ---------- *)
+Lemma checkvalues_props lo hi an n val ck vals hit :
+  checkvalues VXR lo hi an n val ck = Some (vals, hit) ->
+  List.length lo = n -> List.length hi = n ->
+  (forall i, (i < n)%nat -> xle (nx lo i) (nx hi i)) ->
+  List.length vals = n /\
+  (forall i, (i < n)%nat -> nx vals i = clip_np VXR (nx val i) (nx lo i) (nx hi i)) /\
+  (forall i, (i < n)%nat -> in_bounds an (nx vals i) (nx lo i) (nx hi i)).
+Proof.
+  intros E Ll Lh Hb. apply checkvalues_some in E. destruct E as (L & G & -> & _).
+  split; [apply map3_length; auto|].
+  assert (N : forall i, (i < n)%nat ->
+              nx (map3 (clip_np VXR) val lo hi) i = clip_np VXR (nx val i) (nx lo i) (nx hi i)).
+  { intros i Hi. apply (map3_nth _ _ _ _ n); auto. }
+  split; auto. intros i Hi. rewrite N by auto.
+  apply clip_np_in_bounds; auto. intros E.
+  destruct an; auto. rewrite andb_true_r in G.
+  assert (existsb xisnan val = true); [|simpl in *; congruence].
+  apply existsb_exists. exists (nx val i). split; [apply nth_In; lia|]. rewrite E. reflexivity.
+Qed.
+
+Definition nonan_opt (o : option (list xr)) : Prop :=
+  match o with Some l => Forall (fun x => x <> XNan) l | None => True end.
+
+Lemma xle_ninf a : a <> XNan -> xle XNinf a.
+Proof. destruct a; simpl; tauto. Qed.
+Lemma xle_pinf a : a <> XNan -> xle a XPinf.
+Proof. destruct a; simpl; tauto. Qed.
+
+Theorem vnew_wf names defaults mins maxs cb chb an s :
+  vnew VXR names defaults mins maxs cb chb an = Some s ->
+  nonan_opt mins -> nonan_opt maxs ->
+  wf s /\ v_names s = names /\ v_cb s = cb /\ v_chb s = chb /\ v_an s = an /\
+  v_hit s = false /\ v_values s = v_defaults s.
+Proof.
+  unfold vnew. set (n := List.length names).
+  destruct (chb && negb cb) eqn:Ef; [discriminate|].
+  destruct (nodupb names) eqn:End; [|discriminate]. simpl.
+  change (vo_ninf VXR) with XNinf. change (vo_pinf VXR) with XPinf. change (vo_zero VXR) with (XFin 0).
+  intros H Nm NM.
+  (* mins *)
+  assert (exists mins1, (match mins with
+            | Some m => match checkvalues VXR (repeat XNinf n) (repeat XPinf n) an n m false with
+                        | Some (m', _) => Some m' | None => None end
+            | None => Some (repeat XNinf n) end) = Some mins1 /\
+            List.length mins1 = n /\ forall i, (i < n)%nat -> nx mins1 i <> XNan) as (mins1 & Em & Lm & Hm).
+  { destruct mins as [m|].
+    - destruct (checkvalues VXR (repeat XNinf n) (repeat XPinf n) an n m false) as [[m' h]|] eqn:E;
+        [|discriminate].
+      exists m'. split; auto.
+      destruct (checkvalues_props _ _ _ _ _ _ _ _ E) as (L & N & _); auto using repeat_length.
+      { intros i Hi. rewrite !nth_repeat_lt by auto. exact I. }
+      split; auto. intros i Hi. rewrite N by auto. rewrite !nth_repeat_lt by auto.
+      rewrite clip_np_free. simpl in Nm. apply checkvalues_some in E. destruct E as (L' & _).
+      apply Forall_nth; auto. lia.
+    - exists (repeat XNinf n). split; auto. split; [apply repeat_length|].
+      intros i Hi. rewrite nth_repeat_lt by auto. discriminate. }
+  rewrite Em in H.
+  (* maxs *)
+  assert (exists maxs1, (match maxs with
+            | Some m => match checkvalues VXR mins1 (repeat XPinf n) an n m true with
+                        | Some (m', hit) => if hit then None else Some m' | None => None end
+            | None => Some (repeat XPinf n) end) = Some maxs1 /\
+            List.length maxs1 = n /\ forall i, (i < n)%nat -> xle (nx mins1 i) (nx maxs1 i))
+    as (maxs1 & EM & LM & HM).
+  { destruct maxs as [m|].
+    - destruct (checkvalues VXR mins1 (repeat XPinf n) an n m true) as [[m' h]|] eqn:E; [|discriminate].
+      destruct h; [discriminate|]. exists m'. split; auto.
+      destruct (checkvalues_props _ _ _ _ _ _ _ _ E) as (L & N & _); auto using repeat_length.
+      { intros i Hi. rewrite !nth_repeat_lt by auto. apply xle_pinf; auto. }
+      split; auto. intros i Hi. rewrite N by auto. rewrite !nth_repeat_lt by auto.
+      apply clip_np_bounds; [apply xle_pinf; auto|].
+      simpl in NM. apply checkvalues_some in E. destruct E as (L' & _).
+      apply Forall_nth; auto. lia.
+    - exists (repeat XPinf n). split; auto. split; [apply repeat_length|].
+      intros i Hi. rewrite nth_repeat_lt by auto. apply xle_pinf; auto. }
+  rewrite EM in H.
+  (* defaults *)
+  assert (exists defs1, (match defaults with
+            | Some d => match checkvalues VXR mins1 maxs1 an n d true with
+                        | Some (d', hit) => if hit then None else Some d' | None => None end
+            | None => Some (map3 (clip_np VXR) (repeat (XFin 0) n) mins1 maxs1) end) = Some defs1 /\
+            List.length defs1 = n /\
+            forall i, (i < n)%nat -> in_bounds an (nx defs1 i) (nx mins1 i) (nx maxs1 i))
+    as (defs1 & Ed & Ld & Hd).
+  { destruct defaults as [d|].
+    - destruct (checkvalues VXR mins1 maxs1 an n d true) as [[d' h]|] eqn:E; [|discriminate].
+      destruct h; [discriminate|]. exists d'. split; auto.
+      destruct (checkvalues_props _ _ _ _ _ _ _ _ E) as (L & _ & B); auto.
+    - eexists. split; [reflexivity|]. split; [apply map3_length; auto using repeat_length|].
+      intros i Hi. rewrite (map3_nth _ _ _ _ n i (XFin 0) (XFin 0) (XFin 0)); auto using repeat_length.
+      apply clip_np_in_bounds; auto. rewrite nth_repeat_lt by auto. discriminate. }
+  rewrite Ed in H. inversion H; subst s; clear H. simpl.
+  repeat split; auto; unfold v_nval; simpl; auto.
+  - apply nodupb_iff; auto.
+  - intros ->. destruct cb; auto; discriminate.
+Qed.
+
+(* ---------- frame ---------- *)
+Definition frame {T} (s s' : vstate (T := T)) : Prop :=
+  v_names s' = v_names s /\ v_mins s' = v_mins s /\ v_maxs s' = v_maxs s /\
+  v_defaults s' = v_defaults s /\ v_cb s' = v_cb s /\ v_chb s' = v_chb s /\ v_an s' = v_an s.
+
+Lemma frame_refl {T} (s : vstate (T := T)) : frame s s.
+Proof. repeat split. Qed.
+Lemma frame_trans {T} (a b c : vstate (T := T)) : frame a b -> frame b c -> frame a c.
+Proof. unfold frame. intuition congruence. Qed.
+
+Definition is_assign {T} (op : vop (T := T)) : Prop :=
+  match op with OClone | ODict => False | _ => True end.
+
+Lemma set_attr_frame {T} (V : VOps T) s name x : frame s (fst (set_attr V s name x)).
+Proof.
+  unfold set_attr. destruct (index_of name (v_names s)); simpl; [|apply frame_refl].
+  destruct (vo_isnan V x && negb (v_an s)); simpl; repeat split.
+Qed.
+Lemma set_all_frame {T} (V : VOps T) s val : frame s (fst (set_all V s val)).
+Proof.
+  unfold set_all. destruct (checkvalues V _ _ _ _ val _) as [[vals hit]|]; simpl; repeat split.
+Qed.
+
+(* assignments of any kind never touch names, bounds, defaults, flags - for
+   every number instance (binary64 included) and whatever clone/from_dict do *)
+Theorem assign_frame {T} (V : VOps T) cl rt s op : is_assign op ->
+  frame s (fst (step_gen V cl rt s op)).
+Proof.
+  destruct op; simpl; intros H; try contradiction.
+  - apply set_attr_frame.
+  - unfold set_key. destruct (index_of key (v_names s)); simpl;
+      [apply set_attr_frame | apply frame_refl].
+  - apply set_all_frame.
+  - apply set_all_frame.
+Qed.
+
+Theorem step_frame s op : wf s -> frame s (fst (step VXR s op)).
+Proof.
+  intros W. destruct op; try (apply assign_frame; exact I); simpl.
+  - rewrite clone_id; auto. apply frame_refl.
+  - rewrite dict_id; auto. apply frame_refl.
+Qed.
+
+Theorem run_frame ops : forall s, wf s -> frame s (run VXR s ops).
+Proof.
+  unfold run. induction ops as [|op ops IH]; intros s W; simpl; [apply frame_refl|].
+  eapply frame_trans; [apply step_frame; auto|]. apply IH. apply step_wf; auto.
+Qed.
+
+(* ---------- rejected operations ---------- *)
+Theorem rejected_unchanged {T} (V : VOps T) cl rt s op :
+  snd (step_gen V cl rt s op) = Rejected -> fst (step_gen V cl rt s op) = s.
+Proof.
+  destruct op; simpl.
+  - unfold set_attr. destruct (index_of name (v_names s)); simpl; [|discriminate].
+    destruct (vo_isnan V x && negb (v_an s)); simpl; [auto|discriminate].
+  - unfold set_key, set_attr. destruct (index_of key (v_names s)); simpl; auto.
+    destruct (vo_isnan V x && negb (v_an s)); simpl; [auto|discriminate].
+  - unfold set_all. destruct (checkvalues V _ _ _ _ val _) as [[vals hit]|]; simpl; [discriminate|auto].
+  - unfold reset, set_all. destruct (checkvalues V _ _ _ _ _ _) as [[vals hit]|]; simpl; [discriminate|auto].
+  - destruct (cl s); simpl; [discriminate|auto].
+  - destruct (rt s); simpl; [discriminate|auto].
+Qed.
+
+Lemma set_attr_rejected_iff {T} (V : VOps T) s name x :
+  snd (set_attr V s name x) = Rejected <->
+  (In name (v_names s) /\ vo_isnan V x = true /\ v_an s = false).
+Proof.
+  unfold set_attr. destruct (index_of name (v_names s)) as [i|] eqn:E; simpl.
+  - apply index_of_some in E. destruct E as [Hi Hn].
+    assert (In name (v_names s)) by (rewrite <- Hn; apply nth_In; auto).
+    destruct (vo_isnan V x), (v_an s); simpl; split; intros; try discriminate; try tauto.
+    + destruct H0 as (_ & _ & ?); discriminate.
+    + destruct H0 as (_ & ? & _); discriminate.
+    + destruct H0 as (_ & ? & _); discriminate.
+  - apply index_of_none in E. split; [discriminate|]. intros (? & _); contradiction.
+Qed.
+
+Lemma set_key_rejected_iff {T} (V : VOps T) s key x :
+  snd (set_key V s key x) = Rejected <->
+  (~ In key (v_names s) \/ (vo_isnan V x = true /\ v_an s = false)).
+Proof.
+  unfold set_key. destruct (index_of key (v_names s)) as [i|] eqn:E.
+  - rewrite set_attr_rejected_iff.
+    apply index_of_some in E. destruct E as [Hi Hn].
+    assert (In key (v_names s)) by (rewrite <- Hn; apply nth_In; auto). tauto.
+  - apply index_of_none in E. simpl. tauto.
+Qed.
+
+Lemma set_all_rejected_iff {T} (V : VOps T) s val :
+  snd (set_all V s val) = Rejected <->
+  (List.length val <> v_nval s \/ (existsb (vo_isnan V) val = true /\ v_an s = false)).
+Proof.
+  unfold set_all. rewrite <- checkvalues_none with (mins := v_mins s) (maxs := v_maxs s) (ck := v_chb s).
+  destruct (checkvalues V _ _ _ _ val _) as [[vals hit]|]; simpl; split; intros; auto; discriminate.
+Qed.
+
+(* reset, clone and the dictionary round trip are never rejected on a well-formed vector *)
+Theorem reset_spec s : wf s ->
+  reset VXR s = (with_values s (v_defaults s) false, Accepted).
+Proof.
+  intros W. destruct W. destruct s as [names mins maxs defs vals hit cb chb an].
+  unfold reset, v_nval in *. simpl in *. rewrite set_all_rebuild; auto.
+Qed.
+
+Theorem clone_dict_accepted s : wf s ->
+  step VXR s OClone = (s, Accepted) /\ step VXR s ODict = (s, Accepted).
+Proof. intros W. simpl. rewrite clone_id, dict_id; auto. Qed.
+
+(* ---------- the bound-hit flag ---------- *)
+(* set by attribute / by key: accepted assignment of x to the i-th name *)
+Theorem set_attr_spec s name x i : wf s -> index_of name (v_names s) = Some i ->
+  snd (set_attr VXR s name x) = Accepted ->
+  let lo := nx (v_mins s) i in let hi := nx (v_maxs s) i in
+  let s' := fst (set_attr VXR s name x) in
+  v_values s' = upd i (clip_np VXR x lo hi) (v_values s) /\
+  nx (v_values s') i = clip_np VXR x lo hi /\
+  (v_chb s = true -> (v_hit s' = false <-> nx (v_values s') i = x)) /\
+  (v_chb s = false -> v_hit s' = false).
+Proof.
+  intros W Ei. unfold set_attr. rewrite Ei.
+  apply index_of_some in Ei. destruct Ei as [Hi _].
+  destruct s as [names mins maxs defs vals hit cb chb an]. simpl in *.
+  destruct (xisnan x && negb an) eqn:G; simpl; [discriminate|]. intros _.
+  destruct W. unfold v_nval in *; simpl in *.
+  assert (B : xle (nx mins i) (nx maxs i)) by auto.
+  rewrite clip_py_eq_np by auto.
+  assert (N : nx (upd i (clip_np VXR x (nx mins i) (nx maxs i)) vals) i
+              = clip_np VXR x (nx mins i) (nx maxs i)).
+  { rewrite upd_nth by lia. rewrite Nat.eqb_refl. auto. }
+  split; [auto|]. split; [auto|]. split.
+  - intros ->. rewrite N. rewrite <- clip_py_eq_np by auto. apply hit_exact_false_iff; auto.
+  - intros ->. auto.
+Qed.
+
+(* whole-vector assignment *)
+Theorem set_all_spec s val : wf s -> snd (set_all VXR s val) = Accepted ->
+  let s' := fst (set_all VXR s val) in
+  List.length val = v_nval s /\
+  v_values s' = map3 (clip_np VXR) val (v_mins s) (v_maxs s) /\
+  (v_chb s = false -> v_hit s' = false) /\
+  ((forall i, (i < v_nval s)%nat -> away (nx val i) (nx (v_mins s) i) /\ away (nx val i) (nx (v_maxs s) i)) ->
+   v_chb s = true -> (v_hit s' = false <-> v_values s' = val)).
+Proof.
+  intros W. unfold set_all.
+  destruct (checkvalues VXR (v_mins s) (v_maxs s) (v_an s) (v_nval s) val (v_chb s))
+    as [[vals hit]|] eqn:E; simpl; [|discriminate]. intros _.
+  apply checkvalues_some in E. destruct E as (L & G & -> & ->).
+  pose proof (wf_lmins _ W) as Lm. pose proof (wf_lmaxs _ W) as LM. pose proof (wf_bnd _ W) as Hb.
+  assert (N : forall i, (i < v_nval s)%nat ->
+            nx (map3 (clip_np VXR) val (v_mins s) (v_maxs s)) i
+            = clip_np VXR (nx val i) (nx (v_mins s) i) (nx (v_maxs s) i)).
+  { intros i Hi. apply (map3_nth _ _ _ _ (v_nval s)); auto. }
+  split; [auto|]. split; [auto|]. split; [intros ->; auto|].
+  intros H H0. rewrite H0. split.
+  - intros E.
+    apply nth_ext with (d := XFin 0) (d' := XFin 0).
+    + rewrite (map3_length _ _ _ _ (v_nval s)); auto.
+    + intros i Hi. rewrite (map3_length _ _ _ _ (v_nval s)) in Hi; auto.
+      rewrite N by auto. destruct (H i Hi). apply hit_eps_false_iff; auto.
+      eapply (existsb3_false_iff (hit_eps VXR) _ _ _ (v_nval s) (XFin 0) (XFin 0) (XFin 0)) in E; eauto.
+  - intros E.
+    apply (existsb3_false_iff (hit_eps VXR) _ _ _ (v_nval s) (XFin 0) (XFin 0) (XFin 0)); auto.
+    intros i Hi. destruct (H i Hi). apply hit_eps_false_iff; auto.
+    rewrite <- N by auto. rewrite E. reflexivity.
+Qed.
+
+(* without check_hitbounds the flag is False after every operation *)
+Theorem run_nohit ops s : wf s -> v_chb s = false -> v_hit (run VXR s ops) = false.
+Proof.
+  intros W C. destruct (run_frame ops s W) as (_ & _ & _ & _ & _ & E & _).
+  apply (wf_nohit _ (run_wf ops s W)). congruence.
+Qed.
+
+(* ---------- the pinned code (before the fix: commits) ---------- *)
+(* from_dict_old: the restored flag is overwritten by the values setter *)
+Theorem from_dict_old_loses_hit s : wf s ->
+  from_dict_old VXR (to_dict s) = Some (with_hit s false).
+Proof.
+  intros W. unfold from_dict_old, to_dict. simpl.
+  destruct (rows_facts (v_names s) (v_values s) (v_mins s) (v_maxs s) (v_defaults s) (v_nval s))
+    as (A & B & C & D & E & F); try apply W; auto.
+  set (R := rows (v_names s) (v_values s) (v_mins s) (v_maxs s) (v_defaults s)) in *.
+  rewrite A, Nat.ltb_irrefl.
+  assert (firstn (v_nval s) R = R) as -> by (rewrite <- A; apply firstn_all).
+  rewrite B, C, D, E, F.
+  destruct W. destruct s as [names mins maxs defs vals hit cb chb an].
+  unfold v_nval in *. simpl in *.
+  rewrite vnew_rebuild; auto. unfold with_hit, with_values. simpl.
+  rewrite set_all_rebuild; auto.
+Qed.
+
+(* clone_old on a NaN-free vector: check_bounds := check_hitbounds, the two
+   other flags and the hit flag are lost *)
+Theorem clone_old_spec s : wf s ->
+  (forall i, (i < v_nval s)%nat -> nx (v_defaults s) i <> XNan /\ nx (v_values s) i <> XNan) ->
+  clone_old VXR s =
+  Some (mkV (v_names s) (v_mins s) (v_maxs s) (v_defaults s) (v_values s) false (v_chb s)
+            VEC_DEFAULT_CHECK_HITBOUNDS VEC_DEFAULT_ACCEPT_NAN).
+Proof.
+  intros W NN. destruct W. destruct s as [names mins maxs defs vals hit cb chb an].
+  unfold clone_old, v_nval in *. simpl in *.
+  assert (Hin : forall an' x lo hi, in_bounds an x lo hi -> x <> XNan -> in_bounds an' x lo hi).
+  { intros an' x lo hi [[-> _]|H] Hx; [contradiction|right; auto]. }
+  rewrite vnew_rebuild; auto.
+  - rewrite set_all_rebuild; auto. intros i Hi. eapply Hin; eauto. apply NN; auto.
+  - intros i Hi. eapply Hin; eauto. apply NN; auto.
+  - unfold VEC_DEFAULT_CHECK_HITBOUNDS. discriminate.
+Qed.
+
+(* ---------- reachable states ---------- *)
+(* every state reached from a constructor call (NaN-free bounds) by any history *)
+Inductive reachable : vst -> Prop :=
+| reach_new names defaults mins maxs cb chb an s :
+    vnew VXR names defaults mins maxs cb chb an = Some s ->
+    nonan_opt mins -> nonan_opt maxs -> reachable s
+| reach_step s op : reachable s -> reachable (fst (step VXR s op)).
+
+Theorem reachable_wf s : reachable s -> wf s.
+Proof.
+  induction 1.
+  - eapply vnew_wf; eauto.
+  - apply step_wf; auto.
+Qed.
+
+(* the invariant in the words of the property *)
+Definition Inv (s : vst) : Prop :=
+  forall i, (i < v_nval s)%nat ->
+    (nx (v_values s) i = XNan /\ v_an s = true) \/
+    (xle (nx (v_mins s) i) (nx (v_values s) i) /\ xle (nx (v_values s) i) (nx (v_maxs s) i)).
+
+Lemma wf_Inv s : wf s -> Inv s.
+Proof. intros W i Hi. apply (wf_vals _ W i Hi). Qed.
+
+(* ---------- histories from a constructor call ---------- *)
+Section History.
+Variables (names : list string) (defaults mins maxs : option (list xr)) (cb chb an : bool).
+Variables (s0 : vst) (ops : list (vop (T := xr))).
+Hypothesis Hnew : vnew VXR names defaults mins maxs cb chb an = Some s0.
+Hypothesis Hmins : nonan_opt mins.
+Hypothesis Hmaxs : nonan_opt maxs.
+
+Lemma history_wf : wf (run VXR s0 ops).
+Proof. apply run_wf. eapply vnew_wf; eauto. Qed.
+
+Lemma history_Inv : Inv (run VXR s0 ops).
+Proof. apply wf_Inv, history_wf. Qed.
+
+Lemma history_frame :
+  frame s0 (run VXR s0 ops) /\ v_names (run VXR s0 ops) = names /\
+  v_cb (run VXR s0 ops) = cb /\ v_chb (run VXR s0 ops) = chb /\ v_an (run VXR s0 ops) = an.
+Proof.
+  destruct (vnew_wf _ _ _ _ _ _ _ _ Hnew Hmins Hmaxs) as (W & A & B & C & D & _).
+  pose proof (run_frame ops s0 W) as F. split; auto.
+  destruct F as (F1 & _ & _ & _ & F5 & F6 & F7). repeat split; congruence.
+Qed.
+
+Lemma history_nohit : chb = false -> v_hit (run VXR s0 ops) = false.
+Proof.
+  intros C. destruct (vnew_wf _ _ _ _ _ _ _ _ Hnew Hmins Hmaxs) as (W & _ & _ & E & _).
+  apply run_nohit; auto. congruence.
+Qed.
+End History.
+
+Lemma reachable_Inv s : reachable s -> Inv s.
+Proof. intros R. apply wf_Inv, reachable_wf, R. Qed.
+
+Lemma run_reachable ops : forall s, reachable s -> reachable (run VXR s ops).
+Proof.
+  unfold run. induction ops as [|op ops IH]; intros s R; simpl; auto.
+  apply IH. apply reach_step; auto.
+Qed.
+
+(* ---------- further consequences ---------- *)
+
+(* an attribute that is not a name of the vector does not concern it (any instance) *)
+Lemma set_attr_foreign {T} (V : VOps T) s name x : ~ In name (v_names s) ->
+  set_attr V s name x = (s, Accepted).
+Proof. intros H. apply index_of_none in H. unfold set_attr. rewrite H. reflexivity. Qed.
+
+(* set by key on a known name is set by attribute (any instance) *)
+Lemma set_key_known {T} (V : VOps T) s key x : In key (v_names s) ->
+  set_key V s key x = set_attr V s key x.
+Proof. intros H. apply index_of_in in H. destruct H as [i E]. unfold set_key. rewrite E. auto. Qed.
+
+(* lengths never change under assignments (any instance, binary64 included) *)
+Lemma assign_lengths {T} (V : VOps T) cl rt s op : is_assign op -> lengths_ok s ->
+  lengths_ok (fst (step_gen V cl rt s op)).
+Proof.
+  intros A (L1 & L2 & L3 & L4).
+  assert (SA : forall name x, lengths_ok (fst (set_attr V s name x))).
+  { intros name x. unfold set_attr. destruct (index_of name (v_names s)); simpl; [|repeat split; auto].
+    destruct (vo_isnan V x && negb (v_an s)); simpl; repeat split; auto.
+    unfold v_nval; simpl. rewrite upd_length. auto. }
+  assert (SV : forall val, lengths_ok (fst (set_all V s val))).
+  { intros val. unfold set_all.
+    destruct (checkvalues V _ _ _ _ val _) as [[vals hit]|] eqn:E; simpl; [|repeat split; auto].
+    apply checkvalues_some in E. destruct E as (L & _ & -> & _).
+    repeat split; auto. unfold v_nval; simpl. apply map3_length; auto. }
+  destruct op; simpl in *; try contradiction; auto.
+  - unfold set_key. destruct (index_of key (v_names s)); simpl; auto. repeat split; auto.
+  - apply SV.
+Qed.
+
+(* assigning the current values back is accepted and changes nothing but the flag *)
+Theorem set_all_current s : wf s -> set_all VXR s (v_values s) = (with_hit s false, Accepted).
+Proof.
+  intros W. destruct W. destruct s as [names mins maxs defs vals hit cb chb an].
+  unfold v_nval in *. simpl in *. rewrite set_all_rebuild; auto.
+Qed.
+
+(* the two write paths agree: setting one component by attribute is the
+   whole-vector assignment of the current values with that component replaced *)
+Theorem set_attr_is_set_all s name x i : wf s -> index_of name (v_names s) = Some i ->
+  snd (set_attr VXR s name x) = Accepted ->
+  snd (set_all VXR s (upd i x (v_values s))) = Accepted /\
+  v_values (fst (set_attr VXR s name x)) = v_values (fst (set_all VXR s (upd i x (v_values s)))) /\
+  (away x (nx (v_mins s) i) -> away x (nx (v_maxs s) i) ->
+   v_hit (fst (set_attr VXR s name x)) = v_hit (fst (set_all VXR s (upd i x (v_values s))))).
+Proof.
+  intros W Ei Acc.
+  destruct (set_attr_spec s name x i W Ei Acc) as (Hv & _ & _ & _).
+  assert (Gx : x = XNan -> v_an s = true).
+  { intros ->. destruct (v_an s) eqn:Ean; auto. exfalso.
+    assert (R : snd (set_attr VXR s name XNan) = Rejected).
+    { apply set_attr_rejected_iff. apply index_of_some in Ei. destruct Ei as [Hi Hn].
+      split; [rewrite <- Hn; apply nth_In; auto|]. split; auto. }
+    congruence. }
+  pose proof Ei as Ei'. apply index_of_some in Ei'. destruct Ei' as [Hi _].
+  pose proof (wf_lmins _ W) as Lm. pose proof (wf_lmaxs _ W) as LM.
+  pose proof (wf_lvals _ W) as Lv. pose proof (wf_bnd _ W) as Hb. pose proof (wf_vals _ W) as HV.
+  fold (v_nval s) in Hi.
+  set (val := upd i x (v_values s)).
+  assert (Lval : List.length val = v_nval s) by (unfold val; rewrite upd_length; auto).
+  assert (Nval : forall j, (j < v_nval s)%nat -> nx val j = if Nat.eqb j i then x else nx (v_values s) j).
+  { intros j Hj. unfold val. apply upd_nth. lia. }
+  assert (G : existsb xisnan val && negb (v_an s) = false).
+  { destruct (v_an s) eqn:Ean; [apply andb_false_r|]. rewrite andb_true_r.
+    apply existsb_false_nth with (d := XFin 0). intros j Hj. rewrite Lval in Hj.
+    rewrite Nval by auto. destruct (Nat.eqb j i).
+    - destruct x; auto. specialize (Gx eq_refl). discriminate.
+    - specialize (HV j Hj). try rewrite Ean in HV. apply in_bounds_nan_guard in HV.
+      rewrite andb_true_r in HV. exact HV. }
+  assert (CV : checkvalues VXR (v_mins s) (v_maxs s) (v_an s) (v_nval s) val (v_chb s)
+               = Some (map3 (clip_np VXR) val (v_mins s) (v_maxs s),
+                       if v_chb s then existsb3 (hit_eps VXR) val (v_mins s) (v_maxs s) else false)).
+  { unfold checkvalues. rewrite Lval, Nat.eqb_refl. simpl.
+    change (vo_isnan VXR) with xisnan. rewrite G. reflexivity. }
+  unfold set_all. rewrite CV. simpl. split; [reflexivity|]. split.
+  - rewrite Hv. apply nth_ext with (d := XFin 0) (d' := XFin 0).
+    + rewrite upd_length, (map3_length _ _ _ _ (v_nval s)); auto.
+    + intros j Hj. rewrite upd_length, Lv in Hj.
+      rewrite (map3_nth _ _ _ _ (v_nval s) j (XFin 0) (XFin 0) (XFin 0)); auto.
+      rewrite upd_nth by lia. rewrite Nval by auto.
+      destruct (Nat.eqb j i) eqn:E; [apply Nat.eqb_eq in E; subst; auto|].
+      symmetry. eapply in_bounds_clip_id; eauto.
+  - intros A1 A2. unfold set_attr. rewrite Ei.
+    destruct (vo_isnan VXR x && negb (v_an s)) eqn:G2.
+    { unfold set_attr in Acc. rewrite Ei, G2 in Acc. discriminate. }
+    simpl. destruct (v_chb s) eqn:Ec.
+    2:{ apply (wf_nohit _ W); auto. }
+    rewrite <- hit_tests_agree by auto.
+    destruct (hit_eps VXR x (nx (v_mins s) i) (nx (v_maxs s) i)) eqn:Eh.
+    + destruct (existsb3 (hit_eps VXR) val (v_mins s) (v_maxs s)) eqn:E3; auto.
+      eapply (existsb3_false_iff (hit_eps VXR) _ _ _ (v_nval s) (XFin 0) (XFin 0) (XFin 0)) in E3; eauto.
+      rewrite Nval, Nat.eqb_refl in E3 by auto. congruence.
+    + symmetry.
+      apply (existsb3_false_iff (hit_eps VXR) _ _ _ (v_nval s) (XFin 0) (XFin 0) (XFin 0)); auto.
+      intros j Hj. rewrite Nval by auto.
+      destruct (Nat.eqb j i) eqn:E; [apply Nat.eqb_eq in E; subst; auto|].
+      eapply hit_eps_in_bounds; eauto.
+Qed.
+
+(* what an accepted constructor call checked about explicit defaults (any instance) *)
+Lemma vnew_some_defaults {T} (V : VOps T) names d mins maxs cb chb an c :
+  vnew V names (Some d) mins maxs cb chb an = Some c ->
+  existsb (vo_isnan V) d && negb an = false /\
+  v_names c = names /\ v_an c = an /\ v_chb c = chb /\ v_cb c = cb /\ v_hit c = false.
+Proof.
+  intros H. unfold vnew in H.
+  destruct (chb && negb cb); [discriminate|]. destruct (negb (nodupb names)); [discriminate|].
+  repeat match type of H with
+  | match ?X with Some _ => _ | None => None end = Some _ => destruct X eqn:?; [|discriminate]
+  end.
+  inversion H; subst c; clear H. simpl.
+  match goal with
+  | E : match checkvalues V ?lo ?hi an ?n d true with _ => _ end = Some _ |- _ =>
+      destruct (checkvalues V lo hi an n d true) as [[d' h]|] eqn:Ed; [|discriminate]
+  end.
+  apply checkvalues_some in Ed. destruct Ed as (_ & G & _). repeat split; auto.
+Qed.
+
+(* the pinned clone raised as soon as a default or a value was NaN *)
+Theorem clone_old_nan s : wf s ->
+  (exists i, (i < v_nval s)%nat /\ (nx (v_defaults s) i = XNan \/ nx (v_values s) i = XNan)) ->
+  clone_old VXR s = None.
+Proof.
+  intros W (i & Hi & Hn). unfold clone_old.
+  destruct (vnew VXR (v_names s) (Some (v_defaults s)) (Some (v_mins s)) (Some (v_maxs s))
+                 (v_chb s) VEC_DEFAULT_CHECK_HITBOUNDS VEC_DEFAULT_ACCEPT_NAN) as [c|] eqn:E; auto.
+  destruct (vnew_some_defaults _ _ _ _ _ _ _ _ _ E) as (Gd & Nc & Ac & _).
+  unfold VEC_DEFAULT_ACCEPT_NAN in Gd. rewrite andb_true_r in Gd.
+  destruct Hn as [Hn|Hn].
+  - exfalso. assert (existsb (vo_isnan VXR) (v_defaults s) = true); [|congruence].
+    apply existsb_exists. exists (nx (v_defaults s) i). split.
+    + apply nth_In. rewrite (wf_ldefs _ W). auto.
+    + rewrite Hn. reflexivity.
+  - unfold set_all.
+    destruct (checkvalues VXR (v_mins c) (v_maxs c) (v_an c) (v_nval c) (v_values s) (v_chb c))
+      as [[v1 h4]|] eqn:Ev; auto.
+    exfalso. apply checkvalues_some in Ev. destruct Ev as (Lv & Gv & _ & _).
+    rewrite Ac in Gv. unfold VEC_DEFAULT_ACCEPT_NAN in Gv. rewrite andb_true_r in Gv.
+    assert (existsb (vo_isnan VXR) (v_values s) = true); [|congruence].
+    apply existsb_exists. exists (nx (v_values s) i). split.
+    + apply nth_In. rewrite (wf_lvals _ W). auto.
+    + rewrite Hn. reflexivity.
 Qed.
